@@ -236,7 +236,7 @@ pub fn run(ctx: &mut Ctx) -> Result<(), Violation> {
     ctx.rule = "cases = (function f as a truth table on concrete ids, variable list V). Exhaustive: all 256 functions of 3 variables on ids {1,2,3} x all lists of length <= 3 over candidates {0 (above), 1,2,3 (inside), 4 (below/absent)}; \
                 thorough adds all 65536 functions of 4 variables on ids {1,2,4,5} x all lists of length <= 2 over {0..6}. Random: f of up to 6 variables with ids in 0..10, V of length 0..5. \
                 Checked per case: exists/all tables against cofactor or/and, support disjoint from V, invariance under reversing/rotating/doubling/deduplicating V, identity when V misses the support, single-variable elimination, duality, and (sampled) the same through `exists|any|forall|all V # dnf(f)` text. \
-                Non-trivial = V meets the support of f and (the result is non-constant, or V has a repeated or absent variable); distinct by serialized case."
+                Non-trivial = V meets the support of f and (the result is non-constant, or V has a repeated or absent variable); distinct by serialized case. Operand provenance: created in the environment through mk_choice (default), or - in a share of the random cases and in dedicated stages - plain values that belong to no environment / nodes of another environment (what BDD::<usize>::from(named) and the repository's own parser tests produce)."
         .to_string();
     ctx.assume("operands interned via mk_choice; oracle = or/and of the two cofactors on truth tables");
 
